@@ -64,7 +64,10 @@ let listener_of (l : string) : listener =
 
 let client_of (l : string) (client : string) : addr =
   match l with
-  | "udp" | "udpmr" | "tcp" | "gnet" | "tls" | "quic" -> A4 [n_of_int 127; n_of_int 0; n_of_int 0; n_of_int 1]
+  | "udp" | "udpmr" | "tcp" | "gnet" | "tls" | "quic" ->
+    (* the socket's peer address: the loopback source the harness client bound ("127.x.y.z"), 127.0.0.1 by default *)
+    if String.length client > 4 && String.sub client 0 4 = "127." then parse_addr client
+    else A4 [n_of_int 127; n_of_int 0; n_of_int 0; n_of_int 1]
   | _ ->
     (* the DoH listeners are configured with a client-address header: absent => unknown; a list => its first element *)
     let c = (match String.index_opt client ',' with Some i when i > 0 -> String.sub client 0 i | _ -> client) in
